@@ -482,6 +482,9 @@ func (c13Stream) Impl(c Case) string {
 		}
 		tap.mu.Unlock()
 	}
+	if st := rc.stale(); st != "" {
+		fail("%s", st)
+	}
 	sut.finish()
 	return verdict + "\t" + traceString(sut.tr.Snapshot(), "conn.", "loop.", "req.", "run.", "stop.")
 }
